@@ -1,5 +1,5 @@
 // C17: conv2d, call forms with defaulted (None) parameters
-//   nn_conv2d_form <form> <dtype f|d> <input> <weight> <hasbias> [<bias>] <sh> <sw> <ph> <pw> <dh> <dw> <groups>
+//   nn_conv2d_form <form> <dtype f> <input> <weight> <hasbias> [<bias>] <sh> <sw> <ph> <pw> <dh> <dw> <groups>
 //   form: 0 = (input, weight[, bias])   1 = stride int only (sh)     2 = padding int only (ph)
 //         3 = dilation int only (dh)    4 = groups only (+bias)      5 = stride pair only      6 = stride pair + padding pair
 #include "c16_common.hpp"
@@ -10,7 +10,7 @@ namespace view = nmtools::view;
 VH_OP(nn_conv2d_form)
 {
     auto form = in.i();
-    vh::with_fdtype(in, out, [&](auto t) {
+    vh::with_f(in, out, [&](auto t) {
         using T = decltype(t);
         auto xo = vh::read_operand(in);
         auto wo = vh::read_operand(in);
